@@ -10,6 +10,8 @@ package main
 
 import (
 	"context"
+	"encoding/hex"
+	"encoding/json"
 	"errors"
 	"fmt"
 	"io"
@@ -48,7 +50,17 @@ const (
 	hashMax     = 96 * 1024
 )
 
-var keyNames = []string{"", "lista", "listb", "listc", "listd"}
+// keyNames are the valid rule-list keys.  They sit on the boundaries of what
+// filter.NewID accepts and next to each other as file names: two keys that
+// differ only in case, one with the smallest and the largest allowed byte
+// ('!' and '~'), and one of exactly filter.MaxIDLen (128) bytes.
+var keyNames = []string{"", "LISTA", "lista", "listc!~", "listd" + strings.Repeat("~", 123)}
+
+// reservedKeys are valid IDs that are not the name of a cache file of a rule
+// list's own: the directory and its parent, the index files, and the files of
+// the safe-search and hash-prefix filters, which live in the same directory.
+// An index entry with such a key is an invalid entry.
+var reservedKeys = []string{"services.json", "filters.json", ".", "..", "general_safe_search", "youtube_safe_search", "adult_blocking", "safe_browsing", "newly_registered_domains"}
 
 // content is one complete document the server can offer or that can lie in a
 // cache file.
@@ -75,7 +87,11 @@ type entry struct {
 	keyStr string
 	key    int
 	keyOk  bool
-	null   bool
+	// reserved: keyStr is a valid ID but one of reservedKeys, so that the
+	// entry is invalid (keyOk is false for the oracle: no list of that name
+	// may ever be loaded or stored).
+	reserved bool
+	null     bool
 	urlStr string
 	urlOk  bool
 	url    int
@@ -140,6 +156,7 @@ func (p *plan) token() string {
 
 // world is the server side and the bookkeeping of one case.
 type world struct {
+	keyNums map[string]int
 	r    *hlib.Result
 	srv  *httptest.Server
 	base string
@@ -331,22 +348,50 @@ var badKeys = []string{"", "bad key", "bad/key", "kéy", strings.Repeat("k", 129
 // keyNames[p+1] (0: before every valid key, len(keyNames)-1: after all of
 // them).  Code that walks the sorted entries meets them at that place.
 var badKeysAt = [][]string{
-	{"", "bad key", "bad/key", "kéy", strings.Repeat("k", 129), "LISTA UPPER"},
-	{"lista x", "lista/x", "lista\tq"},
-	{"listb ", "listb/", "listb\u00e9"},
-	{"listc\n", "listc/sub", "listc z"},
-	{"zz/bad", "tab\tkey", "listd/x", "listd ", strings.Repeat("z", 200)},
+	{"", "BAD KEY", "A/b", "K\u00e9y", strings.Repeat("A", 129), "LIST A"},
+	{"LISTA x", "LISTA/", "bad key", "k\u00e9y", strings.Repeat("k", 129), "LISTA\x7f"},
+	{"lista x", "lista/x", "lista\tq", "listb ", "listb\u00e9"},
+	{"listc!~\n", "listc/sub", "listc~ z", "listd/x", "listd "},
+	{"zz/bad", "tab\tkey", "listd" + strings.Repeat("~", 124), strings.Repeat("z", 200), "liste\x7f"},
 }
 
 func init() {
+	// The labels of the pools follow the documented rules for IDs (1 to 128
+	// printable, non-blank ASCII bytes without a slash), not the code.
+	idRule := func(k string) bool {
+		if len(k) < 1 || len(k) > 128 {
+			return false
+		}
+		for i := 0; i < len(k); i++ {
+			if k[i] < '!' || k[i] > '~' || k[i] == '/' {
+				return false
+			}
+		}
+
+		return true
+	}
+	for _, k := range keyNames[1:] {
+		if !idRule(k) {
+			panic(fmt.Sprintf("keyNames: %q is not a valid id", k))
+		}
+	}
+	for _, k := range reservedKeys {
+		if !idRule(k) {
+			panic(fmt.Sprintf("reservedKeys: %q is not a valid id", k))
+		}
+	}
+	for _, pool := range badKeysAt {
+		for _, k := range pool {
+			if idRule(k) {
+				panic(fmt.Sprintf("badKeysAt: %q is a valid id by the rules", k))
+			}
+		}
+	}
 	// The positions are what the pool is for: check them once.
 	for p, pool := range badKeysAt {
 		for _, k := range pool {
 			if (p > 0 && !(keyNames[p] < k)) || (p+1 < len(keyNames) && !(k < keyNames[p+1])) {
 				panic(fmt.Sprintf("badKeysAt[%d]: %q is out of place", p, k))
-			}
-			if _, err := filter.NewID(k); err == nil {
-				panic(fmt.Sprintf("badKeysAt[%d]: %q is a valid id", p, k))
 			}
 		}
 	}
@@ -368,7 +413,7 @@ func (w *world) newIdx(es []entry, shape string) *content {
 
 			continue
 		}
-		fmt.Fprintf(b, `{"filterKey":%s,"downloadUrl":%s,"x":%d}`, strconv.Quote(e.keyStr), strconv.Quote(e.urlStr), c.id)
+		fmt.Fprintf(b, `{"filterKey":%s,"downloadUrl":%s,"x":%d}`, jsonQuote(e.keyStr), jsonQuote(e.urlStr), c.id)
 	}
 	b.WriteString(`]}`)
 	body := b.String()
@@ -392,6 +437,43 @@ func (w *world) newIdx(es []entry, shape string) *content {
 	c.body = []byte(body)
 
 	return w.finish(c)
+}
+
+// keyNum is the number the model knows a key string by: the index in
+// keyNames for the valid keys, a number of its own above 100 for every other
+// string.
+func (w *world) keyNum(e entry) int {
+	for k := 1; k < len(keyNames); k++ {
+		if e.keyStr == keyNames[k] {
+			return k
+		}
+	}
+	if w.keyNums == nil {
+		w.keyNums = map[string]int{}
+	}
+	n, ok := w.keyNums[e.keyStr]
+	if !ok {
+		n = 101 + len(w.keyNums)
+		w.keyNums[e.keyStr] = n
+	}
+
+	return n
+}
+
+// reservedEntry is an entry whose key is a valid ID but the name of another
+// file in the cache directory, with a healthy URL.
+func (g *gen) reservedEntry(i int) entry {
+	u := 1 + g.rng.IntN(6)
+
+	return entry{keyStr: reservedKeys[i%len(reservedKeys)], reserved: true, urlStr: g.w.listURL(u), urlOk: true, url: u}
+}
+
+// jsonQuote is s as a JSON string literal.
+func jsonQuote(s string) string {
+	b, err := json.Marshal(s)
+	hlib.Must(err)
+
+	return string(b)
 }
 
 func (w *world) listURL(u int) string { return fmt.Sprintf("%s/u/%d", w.base, u) }
@@ -705,6 +787,11 @@ func (w *world) observe(s *filterstorage.Default, ok bool) *obs {
 		}
 	}
 	for id := range inMem {
+		if contains(reservedKeys, id) {
+			w.r.Violate("reserved-key-loaded-as-list", "a rule list named after another file of the cache directory is served: "+strconv.Quote(id), nil)
+
+			continue
+		}
 		w.r.Violate("unexpected-list-id", "rule list with an id that no index named: "+strconv.Quote(id), nil)
 	}
 
@@ -734,7 +821,7 @@ func runCase(r *hlib.Result, m *hlib.Model, w *world, cs *caseSpec, caseNo int) 
 	hlib.Must(os.MkdirAll(w.dir, 0o755))
 	w.snaps, w.snapStart = nil, nil
 
-	lines := []string{fmt.Sprintf("cfg %d %d %d %s 1 1", cs.idxMax, cs.rlMax, cs.svcMax, b2s(cs.svcEnabled))}
+	lines := []string{fmt.Sprintf("cfg %d %d %d %s 1 1 1", cs.idxMax, cs.rlMax, cs.svcMax, b2s(cs.svcEnabled))}
 	declared := map[int]bool{}
 	declare := func(c *content) {
 		if c == nil || declared[c.id] {
@@ -744,14 +831,19 @@ func runCase(r *hlib.Result, m *hlib.Model, w *world, cs *caseSpec, caseNo int) 
 		lines = append(lines, fmt.Sprintf("len %d %d", c.id, len(c.body)))
 		switch c.kind {
 		case "idx":
-			// In the order loadIndex puts them into: the model walks the
-			// entries as the code does (which matters when the round is
-			// cut short; otherwise not, see index_order_irrelevant).
+			// As decoded and in document order: key strings and what
+			// net/url makes of the URLs.  Sorting (compare), validation
+			// (NewID, validate, reserved keys) are the model's business.
 			parts := []string{}
-			for _, e := range sortedEntries(c.entries) {
-				parts = append(parts, fmt.Sprintf("%d %s %s %d", e.key, b2s(e.keyOk), b2s(e.urlOk), e.url))
+			for _, e := range c.entries {
+				if e.null {
+					parts = append(parts, "n")
+
+					continue
+				}
+				parts = append(parts, fmt.Sprintf("o:%d:%s:%s:%s:%d", w.keyNum(e), hex.EncodeToString([]byte(e.keyStr)), b2s(e.urlStr == ""), b2s(e.urlOk), e.url))
 			}
-			lines = append(lines, strings.TrimSpace(fmt.Sprintf("doc %d %s %s", c.id, b2s(c.jsonOK), strings.Join(parts, " "))))
+			lines = append(lines, strings.TrimSpace(fmt.Sprintf("rawdoc %d %s %s", c.id, b2s(c.jsonOK), strings.Join(parts, " "))))
 		case "svc":
 			lines = append(lines, strings.TrimSpace(fmt.Sprintf("svcdoc %d %s %s", c.id, b2s(c.svcJSON), strings.Join(c.svcEntries, " "))))
 		}
@@ -1112,6 +1204,23 @@ func oracle(r *hlib.Result, w *world, cs *caseSpec, rs *roundSpec, acceptStale b
 		}
 		if cur.ok {
 			viol("index-fault-not-reported", "Refresh returned nil although the index download failed")
+		}
+	}
+	// O7: the files of the cache directory belong to one list each: a
+	// document offered for a rule list never lands in an index file, and no
+	// list named after another file of the directory is loaded or stored.
+	if c := w.contentByID(cur.idxDisk); c != nil && c.kind == "rl" && cur.idxDisk != prev.idxDisk {
+		viol("cache-file-overwritten-by-other-list:index", "filters.json now holds the document of a rule list")
+	}
+	if c := w.contentByID(cur.svcDisk); c != nil && c.kind == "rl" && cur.svcDisk != prev.svcDisk {
+		viol("cache-file-overwritten-by-other-list:services", "services.json now holds the document of a rule list")
+	}
+	for _, name := range reservedKeys {
+		if name == "services.json" || name == "filters.json" || name == "." || name == ".." {
+			continue
+		}
+		if _, err := os.Stat(filepath.Join(w.dir, name)); err == nil {
+			viol("cache-file-overwritten-by-other-list:"+name, "a rule list from the index was stored under the file name of the "+name+" filter")
 		}
 	}
 	if cur.idxDisk != prev.idxDisk && cur.idxDisk != offered(rs.idx, cs.idxMax) {
@@ -1623,6 +1732,10 @@ func (g *gen) genEntriesDense() (es []entry) {
 	for rng.IntN(3) == 0 {
 		es = append(es, entry{null: true})
 	}
+	for rng.IntN(3) == 0 {
+		es = append(es, g.reservedEntry(rng.IntN(len(reservedKeys))))
+		g.w.r.Count("gen_reserved_key_entry")
+	}
 	rng.Shuffle(len(es), func(i, j int) { es[i], es[j] = es[j], es[i] })
 
 	return es
@@ -1648,7 +1761,10 @@ func (g *gen) genEntries() (es []entry, shape string) {
 	}
 	// Invalid entries and duplicates.
 	for rng.IntN(3) == 0 {
-		switch rng.IntN(5) {
+		switch rng.IntN(6) {
+		case 5:
+			es = append(es, g.reservedEntry(rng.IntN(len(reservedKeys))))
+			g.w.r.Count("gen_reserved_key_entry")
 		case 0:
 			es = append(es, entry{null: true})
 		case 1:
@@ -1928,6 +2044,55 @@ func directedCases(w *world, rng *rand.Rand, thorough bool, each func(*caseSpec)
 		cs.rounds = []*roundSpec{round(g, good, "ok"), round(g, broken, "ok"), round(g, good, "ok")}
 		each(cs)
 	}
+	// Keys that are valid IDs but the names of other files of the cache
+	// directory, next to valid entries: the valid ones are applied, the other
+	// files stay what they are, a restart comes up.
+	for i, name := range reservedKeys {
+		cs, g := mk("directed-reserved-key-" + name)
+		es := []entry{g.goodEntry(1, 1), g.reservedEntry(i), g.goodEntry(3, 3)}
+		r3 := round(g, es, "ok")
+		r3.restart = true
+		cs.rounds = []*roundSpec{round(g, es, "ok"), round(g, es, "ok"), r3}
+		each(cs)
+	}
+	// Every document order of one partially invalid index (a valid entry, a
+	// served list whose URL turned invalid, a reserved key, an invalid key, a
+	// null): exhaustive over the 120 permutations in the thorough tier, every
+	// fifth one otherwise.  The outcome must not depend on the order.
+	{
+		perm := []int{0, 1, 2, 3, 4}
+		var perms [][]int
+		var rec func(k int)
+		rec = func(k int) {
+			if k == len(perm) {
+				perms = append(perms, append([]int(nil), perm...))
+
+				return
+			}
+			for i := k; i < len(perm); i++ {
+				perm[k], perm[i] = perm[i], perm[k]
+				rec(k + 1)
+				perm[k], perm[i] = perm[i], perm[k]
+			}
+		}
+		rec(0)
+		for pi, pm := range perms {
+			if !thorough && pi%5 != 0 {
+				continue
+			}
+			cs, g := mk(fmt.Sprintf("directed-document-order-%d", pi))
+			good := []entry{g.goodEntry(2, 2), g.goodEntry(3, 3)}
+			pool := []entry{g.goodEntry(2, 2), {keyStr: keyNames[3], key: 3, keyOk: true, urlStr: badURLs[pi%len(badURLs)]},
+				g.reservedEntry(pi), g.badKeyEntry(pi % len(badKeysAt)), {null: true}}
+			mixed := []entry{}
+			for _, i := range pm {
+				mixed = append(mixed, pool[i])
+			}
+			cs.rounds = []*roundSpec{round(g, good, "ok"), round(g, mixed, "ok")}
+			each(cs)
+			w.r.Count("directed_document_order")
+		}
+	}
 	// Invalid keys and null entries next to valid ones.
 	for i, bad := range badKeys {
 		cs, g := mk(fmt.Sprintf("directed-invalid-key-%d", i))
@@ -2130,7 +2295,9 @@ func main() {
 		"sort position relative to the valid keys x every set of served lists whose entry lost its URL —, documents that are not JSON); after every round " +
 		"what each list serves (probe hosts + rule count) and the bytes of every cache file are compared with the model and " +
 		"checked by the property oracle; cache directories are copied at request arrival and mid-body (kill points) and " +
-		"restarted on; hash: the same for hashprefix.Filter; a case is non-trivial when at least one download failed and at " +
+		"restarted on; valid keys sit on the boundaries of filter.NewID (128 bytes, '!' and '~', two keys differing only in case), invalid pools next to them " +
+		"(129 bytes, DEL, blank, slash, non-ASCII, reserved file names); the model gets every index as decoded, in document order, and validates and sorts it itself; " +
+		"hash: the same for hashprefix.Filter; observer: a concurrent reader of the cache path during replacements of a 6 MiB list; a case is non-trivial when at least one download failed and at " +
 		"least one new document was applied; distinct = distinct (plans, observations) histories"
 	m := hlib.StartModel(o.Model, "C13")
 	defer m.Close()
@@ -2161,6 +2328,12 @@ func main() {
 	}
 	each := func(cs *caseSpec) { run(cs); fresh() }
 
+	if os.Getenv("VERIF_C13_ONLY") == "observer" {
+		observerCampaign(o, r, w)
+		r.Finish()
+
+		return
+	}
 	if os.Getenv("VERIF_C13_ONLY") == "kill" {
 		// Debugging aid: only the SIGKILL campaign.
 		killCampaign(o, r, w)
@@ -2203,6 +2376,8 @@ func main() {
 	phase("random")
 	hashCampaign(o, r, m, w)
 	phase("hash")
+	observerCampaign(o, r, w)
+	phase("observer")
 	if o.Thorough() {
 		killCampaign(o, r, w)
 		phase("sigkill")
@@ -2224,6 +2399,136 @@ func hashCampaign(o *hlib.Opts, r *hlib.Result, m *hlib.Model, w *world) {
 		w.byBody = map[string]*content{}
 		w.nextID = 0
 		runHashCase(r, m, w, rng, i)
+	}
+}
+
+// observerCampaign is the kill-point oracle for the instants no request marks:
+// while a filter replaces a LARGE cache file round after round (healthy
+// downloads and transfers cut short alternating), a concurrent reader opens
+// and reads the cache path as fast as it can.  Whatever it reads is what a
+// process killed at that instant would have left, so it must be one of the
+// complete documents ever offered — never a truncated, empty or half-written
+// file, and once the file exists it must not vanish.  With an atomic rename the
+// reader cannot see anything else, whatever the timing; a replacement that
+// truncates and rewrites the file in place, or removes it first, is seen with
+// high probability because writing a file of this size takes as long as
+// reading it.
+func observerCampaign(o *hlib.Opts, r *hlib.Result, w *world) {
+	rng := o.Rand("observer")
+	rounds, size := 8, 6<<20
+	if o.Thorough() {
+		rounds = 40
+	}
+	w.contents, w.byBody, w.nextID = nil, map[string]*content{}, 0
+	dir, err := os.MkdirTemp("", "c13-observer")
+	hlib.Must(err)
+	defer os.RemoveAll(dir)
+	w.dir = filepath.Join(dir, "cache")
+	hlib.Must(os.MkdirAll(w.dir, 0o755))
+	w.snaps, w.snapStart, w.snapRoot = nil, nil, ""
+	path := filepath.Join(w.dir, "hashes.txt")
+
+	mkBig := func(no int) *content {
+		c := w.add(&content{kind: "hash", hashOK: true})
+		b := &strings.Builder{}
+		b.Grow(size + 64)
+		fmt.Fprintf(b, "%s\n", first(c.id))
+		for i := 0; b.Len() < size+rng.IntN(4096); i++ {
+			fmt.Fprintf(b, "h%d-%d.observer.example\n", no, i)
+		}
+		fmt.Fprintf(b, "%s\n", last(c.id))
+		c.body = []byte(b.String())
+
+		return w.finish(c)
+	}
+	var mu sync.Mutex
+	complete := [][]byte{}
+	stop := make(chan struct{})
+	done := make(chan struct{})
+	reads, bad := 0, ""
+	go func() {
+		defer close(done)
+		seen := false
+		for {
+			select {
+			case <-stop:
+				return
+			default:
+			}
+			b, err := os.ReadFile(path)
+			reads++
+			if err != nil {
+				if seen && errors.Is(err, os.ErrNotExist) && bad == "" {
+					bad = "the cache file vanished"
+				}
+
+				continue
+			}
+			seen = true
+			mu.Lock()
+			ok := false
+			for _, c := range complete {
+				if len(c) == len(b) && string(c) == string(b) {
+					ok = true
+				}
+			}
+			mu.Unlock()
+			if !ok && bad == "" {
+				bad = fmt.Sprintf("the cache file held %d bytes that equal no complete document ever offered", len(b))
+			}
+		}
+	}()
+	u, _ := url.Parse(w.base + "/hash")
+	strg, err := hashprefix.NewStorage("")
+	hlib.Must(err)
+	f, err := hashprefix.NewFilter(&hashprefix.FilterConfig{
+		Logger: slogutil.NewDiscardLogger(), CacheManager: agdcache.EmptyManager{}, Hashes: strg, URL: u,
+		ErrColl: nopErrColl{}, Metrics: filter.EmptyMetrics{}, ID: filter.IDSafeBrowsing, CachePath: path,
+		ReplacementHost: "repl.example", Staleness: w.stale, CacheTTL: time.Minute, RefreshTimeout: longTimeout,
+		CacheCount: 10, MaxSize: datasize.ByteSize(4 * size),
+	})
+	hlib.Must(err)
+	kinds := []string{}
+	for i := 0; i < rounds; i++ {
+		c := mkBig(i)
+		pl := &plan{kind: "ok", c: c}
+		switch {
+		case i%4 == 1:
+			pl.kind = "okchunked"
+		case i%4 == 3:
+			pl.kind, pl.cut = []string{"cutcl", "cutchunked"}[rng.IntN(2)], len(c.body)/2+rng.IntN(len(c.body)/4)
+		}
+		kinds = append(kinds, pl.kind)
+		if !pl.faulty(4 * size) {
+			mu.Lock()
+			complete = append(complete, c.body)
+			mu.Unlock()
+		}
+		w.mu.Lock()
+		w.plans = map[string]*plan{"/hash": pl}
+		w.reqs = map[string]int{}
+		w.mu.Unlock()
+		setFresh(path, false)
+		ctx, cancel := context.WithTimeout(context.Background(), 4*longTimeout)
+		err = f.Refresh(ctx)
+		cancel()
+		if (err == nil) == pl.faulty(4*size) {
+			r.Violate("observer-round-verdict:"+pl.kind, fmt.Sprintf("observer round %d (%s): Refresh returned %v", i, pl.kind, err),
+				map[string]any{"campaign": "observer", "round": i, "plans": kinds})
+		}
+		r.Count("observer_round:" + pl.kind)
+	}
+	close(stop)
+	<-done
+	r.Count("observer_reads_total")
+	if reads < 2*rounds {
+		r.Count("observer_too_few_reads")
+	}
+	r.Notes = append(r.Notes, fmt.Sprintf("observer: %d reads of the cache path during %d replacements of a %d MiB list", reads, rounds, size>>20))
+	r.Case(fmt.Sprintf("observer %v", kinds), true)
+	if bad != "" {
+		r.Violate("observer-saw-incomplete-cache-file", "a reader of the cache path concurrent with the refreshes: "+bad,
+			map[string]any{"campaign": "observer", "plans": kinds, "size": size, "how": "VERIF_C13_ONLY=observer re-runs only this campaign"})
 	}
 }
 
